@@ -362,3 +362,31 @@ package graphql
 //@   at `writer.Write(closeBrace)` ghost js = 9
 //@   loop 1: invariant n == idx1 && js == 1
 //@   ensures js == 9
+
+// ---------------------------------------------------------------- shared trusted contracts used by the transports / executor
+
+//@ trusted github.com/vektah/gqlparser/v2/gqlerror.Errorf(message, args) (err)
+//@   ensures err != nil
+//@   nopanic
+//@   pure
+//@ trusted dyn:graphql.Now() (t)
+//@   nopanic
+//@   pure
+//@ trusted WithOperationContext(ctx, opCtx) (c)
+//@   nopanic
+//@   pure
+//@ trusted StartOperationTrace(ctx) (c)
+//@   nopanic
+//@   pure
+
+// The executor as seen by a transport (implemented by executor.Executor, whose contracts refine these).
+// CreateOperationContext must be given parameters; it returns either a usable context or a non-empty error list.
+//@ trusted (GraphExecutor).CreateOperationContext(ctx, params) (rc, errs)
+//@   requires params != nil
+//@   ensures errs == nil ==> rc != nil
+//@   ensures errs != nil ==> len(errs) > 0
+//@   ensures errs == nil ==> rc.Doc != nil && rc.Operation != nil && rc.Operation == forName(rc.Doc.Operations, rc.OperationName)
+//@ trusted (GraphExecutor).DispatchOperation(ctx, rc) (h, c)
+//@   requires rc != nil
+//@ trusted (GraphExecutor).DispatchError(ctx, list) (resp)
+//@ trusted (GraphExecutor).PresentRecoveredError(ctx, err) (e)
